@@ -44,7 +44,8 @@ Frame(env, st) ==
       evars == UNION {VarsIn(HypToks(env.hyps[k]), fvars) : k \in {j \in 1..Len(env.hyps) : env.hyps[j].k = "e"}}
       used == VarsIn(concl, fvars) \cup evars
       mand == SelectSeq(env.hyps, LAMBDA h : h.k = "e" \/ h.var \in used)
-  IN [label |-> st.label, hyps |-> mand, concl |-> concl, dvs |-> {d \in env.dvs : d \subseteq used}, allhyps |-> env.hyps]
+  IN [label |-> st.label, hyps |-> mand, concl |-> concl, dvs |-> {d \in env.dvs : d \subseteq used}, allhyps |-> env.hyps,
+      alldvs |-> env.dvs]
 \* every math token of a statement must be a declared constant or a variable with an active $f
 Undeclared(env, toks) ==
   LET fvars == {env.hyps[k].var : k \in {j \in 1..Len(env.hyps) : env.hyps[j].k = "f"}} IN
@@ -78,7 +79,7 @@ Before(env, label) == LET n == CHOOSE k \in 1..Len(env.asrt) : env.asrt[k].label
 RECURSIVE SubstToks(_, _)
 SubstToks(e, sg) == IF e = <<>> THEN <<>>
                     ELSE (IF Head(e) \in DOMAIN sg THEN sg[Head(e)] ELSE <<Head(e)>>) \o SubstToks(Tail(e), sg)
-ApplyFrame(a, st, fvars) ==
+ApplyFrame(a, st, fvars, tdvs) ==      \* tdvs: the disjoint-variable pairs active for the statement being proved
   LET n == Len(a.hyps) IN
   IF Len(st) < n THEN [ok |-> FALSE, st |-> st] ELSE
   LET base == Len(st) - n
@@ -87,7 +88,8 @@ ApplyFrame(a, st, fvars) ==
                LET i == CHOOSE j \in fl : a.hyps[j].var = v IN Tail(st[base + i])]
       okf == \A i \in fl : st[base + i] # <<>> /\ Head(st[base + i]) = a.hyps[i].tc
       oke == \A i \in (1..n) \ fl : st[base + i] = SubstToks(HypToks(a.hyps[i]), sg)
-      okd == \A d \in a.dvs : \A x \in d : \A y \in d : x # y => VarsIn(sg[x], fvars) \cap VarsIn(sg[y], fvars) = {}
+      okd == \A d \in a.dvs : \A x \in d : \A y \in d : x # y =>
+               \A v1 \in VarsIn(sg[x], fvars) : \A v2 \in VarsIn(sg[y], fvars) : v1 # v2 /\ {v1, v2} \in tdvs
   IN IF okf /\ oke /\ okd THEN [ok |-> TRUE, st |-> Append(SubSeq(st, 1, base), SubstToks(a.concl, sg))]
      ELSE [ok |-> FALSE, st |-> st]
 
@@ -106,7 +108,7 @@ Run(target, earlier, listed, steps, k, st, saved) ==
               fr  == {j \in 1..Len(earlier) : earlier[j].label = lab}
           IN IF hyp # {} THEN Run(target, earlier, listed, steps, k + 1, Append(st, HypToks(target.allhyps[CHOOSE j \in hyp : TRUE])), saved)
              ELSE IF fr = {} THEN [ok |-> FALSE, at |-> k]
-             ELSE LET r == ApplyFrame(earlier[CHOOSE j \in fr : TRUE], st, fvars) IN
+             ELSE LET r == ApplyFrame(earlier[CHOOSE j \in fr : TRUE], st, fvars, target.alldvs) IN
                   IF r.ok THEN Run(target, earlier, listed, steps, k + 1, r.st, saved) ELSE [ok |-> FALSE, at |-> k]
      ELSE IF n - m - l <= Len(saved) THEN Run(target, earlier, listed, steps, k + 1, Append(st, saved[n - m - l]), saved)
      ELSE [ok |-> FALSE, at |-> k]
